@@ -13,7 +13,9 @@ Rec == ndJsonDeserialize(IOEnv.TRACE)
 VARIABLES l, o, restricted
 Init == l = 1 /\ o = [e |-> "init"] /\ restricted = FALSE
 Next == /\ l <= Len(Rec) /\ l' = l + 1 /\ o' = Rec[l]
-        /\ restricted' = IF Rec[l].e = "fs" /\ Rec[l].op = "restrict" /\ Rec[l].mode = "0700" THEN TRUE ELSE restricted
+        /\ restricted' = IF Rec[l].e = "fs" /\ Rec[l].op = "restrict" /\ Rec[l].mode = "0700" THEN TRUE
+                         ELSE IF Rec[l].e = "fs" /\ Rec[l].op = "mkdir" THEN FALSE     \* a (re-)created directory is unrestricted
+                         ELSE restricted
 Spec == Init /\ [][Next]_<<l, o, restricted>>
 P_C12_NoLeak == (o.e = "sink" /\ o.canary) => o.sink = "keyfile"
 P_C12_AclBeforeFirstKeyFile == (o.e = "fs" /\ o.op = "create") => restricted
